@@ -9,7 +9,7 @@ func c05n() int {
 	if vrt.Tier() == 0 {
 		return 20
 	}
-	return 36
+	return 28
 }
 
 func c05bytes(max int) ([]byte, []byte) {
@@ -89,7 +89,14 @@ func VH_C05_DoneFunc() {
 
 func VH_C05_PMT() {
 	vrt.SetUnwind(300, true)
-	b, keep := c05bytes(c05n())
+	// fully symbolic PMT bytes: exploration time grows steeply with the length (thorough tier:
+	// 22 bytes 218 s, 24 bytes 363 s, 25 bytes 954 s, 26 bytes 1068 s of an 1080 s budget), so the
+	// thorough bound of this harness is 24; the other psi parsers run to 28
+	n := c05n()
+	if n > 24 {
+		n = 24
+	}
+	b, keep := c05bytes(n)
 	if len(b) == 0 {
 		vrt.Reach("end")
 		return
@@ -174,7 +181,7 @@ func VH_C05_PMTBody() {
 	vrt.SetUnwind(300, true)
 	max := 19
 	if vrt.Tier() == 1 {
-		max = 28
+		max = 22
 	}
 	n := vrt.Choose("bodyLen", 0, max)
 	lenMode := vrt.Choose("sectionLength", 0, 1)
